@@ -14,9 +14,19 @@
 package udp
 
 import (
+	"errors"
 	"hash/crc32"
 	"net"
 )
+
+// maxBodyLength is the largest body one datagram can carry behind the 8 byte header.
+const maxBodyLength = 65507 - 8
+
+// ResponseEntityTooLarge represents the error message of ErrResponseEntityTooLarge.
+const ResponseEntityTooLarge = "Response entity too large"
+
+// ErrResponseEntityTooLarge represents a error.
+var ErrResponseEntityTooLarge = errors.New("hprose/rpc/udp: response entity too large")
 
 type data struct {
 	Index int
